@@ -83,6 +83,16 @@ CHECKS.update({
          "Exhaustive over the matrix (34 cells): tell, ask/reply, immediate and poison kill, watch, unwatch, ping, pipe success/failure with local and remote forwarders, scheduler delivery, each with a registered custom message and with a Codec-only message where a message is carried. Each cell is run from an actor on system A against actors on A or on system B; TransMon requires the observed outcome to equal the location-independent expectation and no built-in message to fail decoding.",
          "Outcomes are observed with real-time waits (1.5 s; 300 ms for the negative unwatch case); one Codec implementation; the matrix lists operations of ActorContext (ActorSystem shares the implementation).",
          "§5 C15"),
+ "C12": ("other",
+         "TLA+ module Wire defines the wire grammar and enumerates (TLC) the round-trip case matrix; every case is executed on the real writer/reader, registered (de)serialisers and envelope codec; results validated by TLC against CodecMon; model token widths compared with real encodings",
+         "Exhaustive over the matrix: every primitive/blob kind x value class (zero, one, max, min / empty, one, long, non-ASCII) x container (direct, pointer, 0/1/3-element slice, array, struct field, slice of structs); value-class vectors (all-zero, all-one, all-extreme, each single leaf extreme, int fields beyond int32) for every message type found in the real wire registry (materialised by reflection, so a newly registered message is covered without touching the harness); every envelope combination of system flag x sender absent/local/remote x receiver absent/present x built-in/custom message. CodecMon: semantic equality and the reader consumes exactly what the writer produced.",
+         "Value classes, not all values (TLC does not reason about Go arithmetic); KNOWN FINDING KF-C12-1 (int fields travel as int32).",
+         "§5 C12"),
+ "C13": ("fault_enumeration",
+         "TLA+ module Wire enumerates (TLC) the fault matrix over valid encodings and the unsupported encode-side values; every case runs on the real decoders/encoders in a child process under an address-space limit and a watchdog; outcomes validated by TLC against CodecMon",
+         "Faults: truncation at every offset, XOR of every byte with 0xFF/0x01/0x80, every 4-byte window overwritten with 65536 / 2^31 / 2^32-1, the first three length tokens set to 0 / n-1 / n+1 / 65536 / 2^31 / 2^32-1, unknown message name - applied to a valid envelope of every message type in the real wire registry, to a cluster view and to primitive / slice / array / struct encodings (quick: a seed-shifted stride of 7 over the offsets; thorough: every offset, plus all-extreme encodings). Encode side: int, uint, uintptr, complex, map, chan, func, nil interface, named integer, nil pointers, structs with such fields, nil and non-pointer messages, the zero value (all fields nil) of every registered message. CodecMon: outcome is value or error (panic, time-out, stack overflow, out of memory are violations), allocation <= 32 MiB + 64 x input, a failed decode leaves the caller's pre-filled target untouched.",
+         "Fault classes over valid encodings, not all byte strings; the frame level (connection length prefix, 4 MiB limit) is exercised in C14; allocation is measured with runtime.MemStats in a single-purpose child.",
+         "§5 C13"),
 })
 
 NOT_YET = {
